@@ -169,9 +169,13 @@ fn c06(cx: &mut Cx, bitmaps: &str, quick: bool, rng: &mut Rng) {
     let bms = read_bitmaps(bitmaps);
     for (k, (w, h, rows)) in bms.iter().enumerate() {
         let b = bitmap_shape(rows, *w, *h);
-        let tl: &[usize] = [&[4usize, 2][..], &[4, 2, 1], &[2], &[4], &[2, 1], &[3], &[6, 3]][k % 7];
-        if k % 2 == 0 { render2::<VmFunction>(cx, "vm", &b, *w, *h, tl, Matrix3::identity(), k % 3 == 0, 0.0, 0); }
-        else { render2::<JitFunction>(cx, "jit", &b, *w, *h, tl, Matrix3::identity(), k % 3 == 0, 0.0, [0, 2, 5][k % 3]); }
+        // every inside set of the bound under three tile lists (root tiles that overhang, single-level lists, 1-pixel leaves)
+        for t in 0..3 {
+            let k = k + 3 * t + t;
+            let tl: &[usize] = [&[4usize, 2][..], &[4, 2, 1], &[2], &[4], &[2, 1], &[3], &[6, 3]][k % 7];
+            if k % 2 == 0 { render2::<VmFunction>(cx, "vm", &b, *w, *h, tl, Matrix3::identity(), k % 3 == 0, 0.0, 0); }
+            else { render2::<JitFunction>(cx, "jit", &b, *w, *h, tl, Matrix3::identity(), k % 3 == 0, 0.0, [0, 2, 5][k % 3]); }
+        }
     }
     // (b) random bitmaps on larger grids
     let sizes: [(u32, u32); 8] = [(16, 16), (17, 9), (9, 23), (32, 20), (40, 40), (13, 13), (64, 64), (96, 40)];
@@ -195,7 +199,10 @@ fn c06(cx: &mut Cx, bitmaps: &str, quick: bool, rng: &mut Rng) {
     // (c) CSG, NaN-interval shapes and bundled models with views, sizes, tile lists, pools
     let n = if quick { 300 } else { 3000 };
     for k in 0..n {
+        // every fourth shape depends on z (3D CSG cut at the slice height), so the `z` of the configuration matters
+        let solid = k % 4 == 3;
         let b = match k % 6 {
+            _ if solid => { let n = 1 + rng.below(5); shapes::random_csg3(rng, n, false) }
             0 | 1 | 2 => { let n = 1 + rng.below(6); shapes::random_csg2(rng, n) }
             3 | 5 => shapes::nan_interval_shape(k / 6 + k % 2),
             4 => shapes::model(["hi", "quarter"][(k / 6) % 2]).unwrap_or_else(|| shapes::random_csg2(rng, 3)),
@@ -203,9 +210,10 @@ fn c06(cx: &mut Cx, bitmaps: &str, quick: bool, rng: &mut Rng) {
         };
         let (w, h) = sizes[rng.below(sizes.len())];
         let tl = TILE_LISTS_2D[rng.below(TILE_LISTS_2D.len())];
-        let view = random_view2(rng, k);
+        // z-dependent shapes only under affine views: what a slice height means under a projective 2D view is not stated
+        let view = random_view2(rng, if solid { k % 3 } else { k });
         let perfect = k % 3 == 0;
-        let z = if k % 7 == 0 { rng.range(-0.5, 0.5) } else { 0.0 };
+        let z = if solid { rng.range(-0.7, 0.7) } else if k % 7 == 0 { rng.range(-0.5, 0.5) } else { 0.0 };
         let threads = [0usize, 1, 2, 4, 8, 16][rng.below(6)];
         if k % 2 == 0 { render2::<VmFunction>(cx, "vm", &b, w, h, tl, view, perfect, z, threads); }
         else { render2::<JitFunction>(cx, "jit", &b, w, h, tl, view, perfect, z, threads); }
